@@ -201,4 +201,25 @@ theorem isBool_eq (dt : DT) (hdt : dt.WF ∨ dt = dtBool) (h : dt.isBool = true)
   · rw [wf.notBool] at h; cases h
   · rfl
 
+/-- every non-zero entry inside the element box is in the support -/
+theorem mem_support_of (S : List Nat) (bc : Array Int) (c : Bool) (i : Nat) (hi : i < shapeSize S)
+    (h : bc.getD i 0 ≠ 0) :
+    (subPos (unravelI S i) (centreOf S), bc.getD i 0) ∈ support S bc c := by
+  unfold support
+  simp only [List.mem_filterMap, List.mem_range]
+  refine ⟨i, hi, ?_⟩
+  have hb : (bc.getD i 0 == 0) = false := by simpa using h
+  simp only [hb, Bool.and_false]
+  rfl
+
+theorem crossElem_size (d : Nat) (r : Int) : (crossElem d r).size = shapeSize (List.replicate d 3) := by
+  simp [crossElem, allPos]
+
+theorem crossElem_01 (d : Nat) (r : Int) (i : Nat) :
+    (crossElem d r).getD i 0 = 0 ∨ (crossElem d r).getD i 0 = 1 := by
+  by_cases hi : i < shapeSize (List.replicate d 3)
+  · rw [crossElem_eq]; exact ballElem_entries _ 1 _ i hi
+  · left
+    rw [Array.getD_eq_getD_getElem?, Array.getElem?_eq_none (by rw [crossElem_size]; omega)]; rfl
+
 end Mahotas.C01
